@@ -323,7 +323,7 @@ fn c14_state_new_wrong_unit_panics() {
 // Arithmetic: component-wise with the same f32 operator (true IEEE semantics, cvc5)
 // ------------------------------------------------------------------------------------------------
 
-//@ob fn="<State as Neg>::neg" at=src/state.rs:135 clause="component-wise sign flip, bit-exact (NaN payload kept)"
+//@ob prop=C14,C08 fn="<State as Neg>::neg" at=src/state.rs:135 clause="component-wise sign flip, bit-exact (NaN payload kept)"
 #[kani::proof]
 fn c14_state_neg() {
     let a: State = kani::any();
@@ -396,19 +396,19 @@ macro_rules! state_scalar_assign_harness {
     };
 }
 
-//@ob fn="<State as Add>::add" at=src/state.rs:141 clause="component-wise f32 + (true IEEE semantics; equal or both NaN)"
+//@ob prop=C14,C08 fn="<State as Add>::add" at=src/state.rs:141 clause="component-wise f32 + (true IEEE semantics; equal or both NaN)"
 state_bin_harness!(c14_state_add, +);
-//@ob fn="<State as AddAssign>::add_assign" at=src/state.rs:181 clause="a += b leaves a component-wise a + b (true IEEE semantics; equal or both NaN)"
+//@ob prop=C14,C08 fn="<State as AddAssign>::add_assign" at=src/state.rs:181 clause="a += b leaves a component-wise a + b (true IEEE semantics; equal or both NaN)"
 state_bin_assign_harness!(c14_state_add_assign, +, +=);
-//@ob fn="<State as Sub>::sub" at=src/state.rs:151 clause="component-wise f32 - (true IEEE semantics; equal or both NaN)"
+//@ob prop=C14,C08 fn="<State as Sub>::sub" at=src/state.rs:151 clause="component-wise f32 - (true IEEE semantics; equal or both NaN)"
 state_bin_harness!(c14_state_sub, -);
-//@ob fn="<State as SubAssign>::sub_assign" at=src/state.rs:186 clause="a -= b leaves a component-wise a - b (true IEEE semantics; equal or both NaN)"
+//@ob prop=C14,C08 fn="<State as SubAssign>::sub_assign" at=src/state.rs:186 clause="a -= b leaves a component-wise a - b (true IEEE semantics; equal or both NaN)"
 state_bin_assign_harness!(c14_state_sub_assign, -, -=);
-//@ob fn="<State as Mul<f32>>::mul" at=src/state.rs:161 clause="component-wise f32 * coef (true IEEE semantics; equal or both NaN)"
+//@ob prop=C14,C08 fn="<State as Mul<f32>>::mul" at=src/state.rs:161 clause="component-wise f32 * coef (true IEEE semantics; equal or both NaN)"
 state_scalar_harness!(c14_state_mul_f32, *);
-//@ob fn="<State as MulAssign<f32>>::mul_assign" at=src/state.rs:191 clause="a *= k leaves a component-wise a * k (true IEEE semantics; equal or both NaN)"
+//@ob prop=C14,C08 fn="<State as MulAssign<f32>>::mul_assign" at=src/state.rs:191 clause="a *= k leaves a component-wise a * k (true IEEE semantics; equal or both NaN)"
 state_scalar_assign_harness!(c14_state_mul_assign_f32, *, *=);
-//@ob fn="<State as Div<f32>>::div" at=src/state.rs:171 clause="component-wise f32 / dvsr (true IEEE semantics; equal or both NaN), for every divisor including 0, inf, NaN"
+//@ob prop=C14,C08,C20 fn="<State as Div<f32>>::div" at=src/state.rs:171 clause="component-wise f32 / dvsr (true IEEE semantics; equal or both NaN), for every divisor including 0, inf, NaN"
 state_scalar_harness!(c14_state_div_f32, /);
-//@ob fn="<State as DivAssign<f32>>::div_assign" at=src/state.rs:196 clause="a /= k leaves a component-wise a / k (true IEEE semantics; equal or both NaN)"
+//@ob prop=C14,C08 fn="<State as DivAssign<f32>>::div_assign" at=src/state.rs:196 clause="a /= k leaves a component-wise a / k (true IEEE semantics; equal or both NaN)"
 state_scalar_assign_harness!(c14_state_div_assign_f32, /, /=);
